@@ -130,9 +130,9 @@ def _rand_conv(rng, base):
     return [("-" + x if rng.random() < 0.3 else x) for x in c]
 
 
-def _corrupt(rng, c):
+def _corrupt(rng, c, kind=None):
     c = list(c)
-    kind = rng.choice(["drop", "dup", "replace", "dd", "add", "dash", "none"])
+    kind = kind or rng.choice(["drop", "dup", "dupsign", "dupsign", "replace", "dd", "add", "dash", "none"])
     if not c:
         return c + ["q"]
     i = rng.randrange(len(c))
@@ -140,6 +140,11 @@ def _corrupt(rng, c):
         del c[i]
     elif kind == "dup":
         c[i] = c[rng.randrange(len(c))].lstrip("-") if rng.random() < 0.5 else c[rng.randrange(len(c))]
+    elif kind == "dupsign" and len(c) > 1:
+        # a duplicate whose two copies differ in sign ('x' and '-x')
+        j = rng.choice([k for k in range(len(c)) if k != i])
+        base = c[j].lstrip("-")
+        c[i] = base if c[j].startswith("-") else "-" + base
     elif kind == "replace":
         c[i] = rng.choice(["qq", "c77", "-s77", "x"])
     elif kind == "dd":
@@ -178,6 +183,9 @@ def _shell_cases(ctx, tabs):
         elif r < 0.35:
             c1, c2 = _corrupt(rng, c1), _corrupt(rng, c2)
             cls = "corrupt-both"
+        elif r < 0.42:
+            c1, c2 = _corrupt(rng, c1, "dupsign"), _corrupt(rng, c2, "dupsign")
+            cls = "corrupt-both-dupsign"
         cases.append((c1, c2, rng.random() < 0.4, cls))
     # all single-label corruptions of one built-in table per run
     tname = rng.choice(sorted(tabs))
@@ -323,8 +331,12 @@ def search(ctx):
     for _ in range(n):
         k = rng.choice(keys)
         c1, c2 = _rand_conv(rng, h2[k]), _rand_conv(rng, h2[k])
-        if rng.random() < 0.3:
+        rr = rng.random()
+        if rr < 0.25:
             c2 = _corrupt(rng, c2)
+        elif rr < 0.4:
+            kind = rng.choice(["dupsign", "dup", "drop", "replace"])
+            c1, c2 = _corrupt(rng, c1, kind), _corrupt(rng, c2, kind)
         r = check_shell(c1, c2)
         ctx.count("search-shell", [c1, c2], "ok" if r is None else r[0], sample={"c1": c1, "c2": c2})
         if r:
@@ -333,7 +345,7 @@ def search(ctx):
         if _compatible(c1, c2):
             from iodata.convert import _convert_convention_shell as f
 
-            c3 = _rand_conv(rng, h2[k])
+            c3 = _rand_conv(rng, [_strip(x) for x in c1])
             v = np.arange(1, len(c1) + 1) * 5 + 1
             p12, s12 = f(c1, c2)
             p23, s23 = f(c2, c3)
@@ -354,7 +366,15 @@ def search(ctx):
         t1 = {k: _rand_conv(rng, h2[k]) for k in used}
         t2 = {k: _rand_conv(rng, h2[k]) for k in used}
         shells = [Shell(0, np.array([k[0] for k in ks]), [k[1] for k in ks], np.ones(1), np.ones((1, len(ks)))) for ks in kps]
-        p, s = convert_conventions(MolecularBasis(shells, t1, "L2"), t2)
+        try:
+            p, s = convert_conventions(MolecularBasis(shells, t1, "L2"), t2)
+        except Exception as exc:
+            ctx.count("search-basis", [kps, t1, t2], "exception")
+            ctx.fail("convb-exception:" + type(exc).__name__,
+                     f"convert_conventions raised {type(exc).__name__} for conventions covering every shell type of the basis",
+                     {"kind": "basis", "keys": kps, "t1": {f"{a}{b}": v for (a, b), v in t1.items()},
+                      "t2": {f"{a}{b}": v for (a, b), v in t2.items()}})
+            continue
         exp_p, exp_s = [], []
         for ks in kps:
             for k in ks:
@@ -387,5 +407,26 @@ def replay(ctx, obj):
         p13, s13 = f(c1, c3)
         return not np.array_equal((v[p12] * s12)[p23] * s23, v[p13] * s13)
     if inp["kind"] == "basis":
-        return True
+        from iodata.basis import MolecularBasis, Shell
+        from iodata.convert import _convert_convention_shell as f
+        from iodata.convert import convert_conventions
+
+        def tab(d):
+            return {(int(k[:-1]), k[-1]): v for k, v in d.items()}
+
+        t1, t2 = tab(inp["t1"]), tab(inp["t2"])
+        kps = [[tuple(k) for k in ks] for ks in inp["keys"]]
+        shells = [Shell(0, np.array([k[0] for k in ks]), [k[1] for k in ks], np.ones(1), np.ones((1, len(ks)))) for ks in kps]
+        try:
+            p, s = convert_conventions(MolecularBasis(shells, t1, "L2"), t2)
+        except Exception:
+            return True
+        exp_p, exp_s = [], []
+        for ks in kps:
+            for k in ks:
+                pp, ss = f(t1[k], t2[k])
+                off = len(exp_p)
+                exp_p += [int(i) + off for i in pp]
+                exp_s += [int(x) for x in ss]
+        return not (list(map(int, p)) == exp_p and list(map(int, s)) == exp_s)
     return True
